@@ -174,6 +174,19 @@ def _pattern_used(fn, M, ce):
                     return None
                 if isinstance(pat, str) and len(init.args) == 1 and not init.keywords:
                     return pat, n.func.attr
+    # a bound method of the compiled pattern kept under a module-level name (`_match = _pattern.match`) and called by that name
+    for n in ast.walk(fn.node):
+        if isinstance(n, ast.Call) and isinstance(n.func, ast.Name):
+            b_ = M.mod_consts.get(MOD, {}).get(n.func.id)
+            if isinstance(b_, ast.Attribute) and b_.attr in ("match", "fullmatch", "search") and isinstance(b_.value, ast.Name):
+                init = M.mod_consts.get(MOD, {}).get(b_.value.id)
+                if isinstance(init, ast.Call) and init.args and len(init.args) == 1 and not init.keywords:
+                    try:
+                        pat = ce.eval(init.args[0], {}, MOD)
+                    except NotConstant:
+                        return None
+                    if isinstance(pat, str):
+                        return pat, b_.attr
     return None
 
 
